@@ -592,6 +592,13 @@ class App(falcon.app.App):
 
             req_succeeded = False
 
+            # NOTE: Render what the error handler has composed; should that
+            #   fail as well, settle for an empty body.
+            try:
+                data = await resp.render_body()
+            except Exception:
+                data = b''
+
         resp_status: int = resp.status_code
         default_media_type: Optional[str] = self.resp_options.default_media_type
 
